@@ -80,7 +80,7 @@ func RunUseEmpty(conf core.Config) *core.Result {
 					continue
 				}
 				g := cfgx.New(fd.Body, info)
-				g.Keep = cfgx.KeepUnder(func(e ast.Expr) (bool, bool) {
+				g.Keep = cfgx.KeepUnder(cfgx.WithBoolDefs(info, fd.Body, func(e ast.Expr) (bool, bool) {
 					e = ast.Unparen(e)
 					if c, ok := e.(*ast.CallExpr); ok && len(c.Args) == 0 {
 						if sel, ok := c.Fun.(*ast.SelectorExpr); ok && sel.Sel.Name == "IsEmpty" && isRecv(sel.X) {
@@ -104,7 +104,7 @@ func RunUseEmpty(conf core.Config) *core.Result {
 						}
 					}
 					return false, false
-				})
+				}))
 				reach := g.Reachable()
 				for _, c := range sites {
 					res.Obligations++
